@@ -1,11 +1,33 @@
-/- BDS 1,9 — crates/rs1090/src/decode/bds/bds19.rs   (STUB: not modelled yet) -/
-import Rs1090.Model.Decode.Common
+/- BDS 1,9 GICB capability report (2 of 5) — crates/rs1090/src/decode/bds/bds19.rs -/
+import Rs1090.Model.Decode.Bds17
 namespace Rs1090.Model.Bds19
-open Rs1090 Rs1090.Model
+open Rs1090 Rs1090.Model Rs1090.Model.Gicb
 
-/-- STUB -/
-def modelled : Bool := false
+def modelled : Bool := true
 
-def read : R SerFields := R.fail .other
+/-- the 56 capability bits of `GICBCapabilityReportPart2` in declaration order (BDS 7,0 first,
+    BDS 3,9 last).  No `map` on bds65, bds62..bds5f, bds53..bds50, bds45, bds44, bds40;
+    `fail_if_true` on every other bit; no bit is required to be set. -/
+def flags : List (Key × Rule) := [
+  (key! "bds70", .mustFalse), (key! "bds6f", .mustFalse), (key! "bds6e", .mustFalse), (key! "bds6d", .mustFalse),
+  (key! "bds6c", .mustFalse), (key! "bds6b", .mustFalse), (key! "bds6a", .mustFalse), (key! "bds69", .mustFalse),
+  (key! "bds68", .mustFalse), (key! "bds67", .mustFalse), (key! "bds66", .mustFalse), (key! "bds65", .any),
+  (key! "bds64", .mustFalse), (key! "bds63", .mustFalse), (key! "bds62", .any), (key! "bds61", .any),
+  (key! "bds60", .any), (key! "bds5f", .any), (key! "bds5e", .mustFalse), (key! "bds5d", .mustFalse),
+  (key! "bds5c", .mustFalse), (key! "bds5b", .mustFalse), (key! "bds5a", .mustFalse), (key! "bds59", .mustFalse),
+  (key! "bds58", .mustFalse), (key! "bds57", .mustFalse), (key! "bds56", .mustFalse), (key! "bds55", .mustFalse),
+  (key! "bds54", .mustFalse), (key! "bds53", .any), (key! "bds52", .any), (key! "bds51", .any),
+  (key! "bds50", .any), (key! "bds4f", .mustFalse), (key! "bds4e", .mustFalse), (key! "bds4d", .mustFalse),
+  (key! "bds4c", .mustFalse), (key! "bds4b", .mustFalse), (key! "bds4a", .mustFalse), (key! "bds49", .mustFalse),
+  (key! "bds48", .mustFalse), (key! "bds47", .mustFalse), (key! "bds46", .mustFalse), (key! "bds45", .any),
+  (key! "bds44", .any), (key! "bds43", .mustFalse), (key! "bds42", .mustFalse), (key! "bds41", .mustFalse),
+  (key! "bds40", .any), (key! "bds3f", .mustFalse), (key! "bds3e", .mustFalse), (key! "bds3d", .mustFalse),
+  (key! "bds3c", .mustFalse), (key! "bds3b", .mustFalse), (key! "bds3a", .mustFalse), (key! "bds39", .mustFalse) ]
+
+/-- `GICBCapabilityReportPart2`: 56 one-bit fields, nothing else.  (An all-zero MB field would
+    be accepted, but the Comm-B selector returns before trying any register in that case.) -/
+def read : R SerFields := do
+  let fs ← readFlags flags
+  pure <| tagged (key! "bds") (key! "19") (.ok fs)
 
 end Rs1090.Model.Bds19
